@@ -19,7 +19,7 @@ func main() {
 			os.Exit(2)
 		}
 		fmt.Printf("loaded in %.1fs\n", ld.LoadSec)
-		j := &Job{ID: os.Args[3], Pkg: os.Args[2], Entry: os.Args[3], Workers: 8}
+		j := &Job{ID: os.Args[3], Pkg: os.Args[2], Entry: os.Args[3], Workers: 8, IntMode: os.Getenv("SYMGO_INT") != "", PanicOK: os.Getenv("SYMGO_PANICOK") != ""}
 		res := Explore(ld.Prog, j)
 		printResult(j.ID, res)
 	default:
